@@ -114,6 +114,20 @@ theorem gl_read_u64_limited (limit : Nat) (hl : limit ≤ 8) (bs : Bytes) (hbs :
   | error e => rfl
   | ok q => simp [rpure]
 
+theorem gs_limC_enc_bytes (limit v : Nat) :
+    ∀ b ∈ flat (seqChunks (List.replicate limit u8C) (leBytes limit v)), b < 256 := by
+  induction limit generalizing v with
+  | zero => intro b hb; simp [leBytes, seqChunks, flat] at hb
+  | succ n ih =>
+    intro b hb
+    simp only [List.replicate_succ, leBytes, seqChunks, flat_append, List.mem_append] at hb
+    rcases hb with h | h
+    · have : flat (u8C.chunks (v % 256)) = [v % 256 % 256] := by simp [u8C, scalarC, flat, leBytes]
+      rw [this] at h
+      have : b = v % 256 % 256 := by simpa using h
+      omega
+    · exact ih _ b h
+
 /-- `get_u64_limit` never asks for more than 8 bytes -/
 theorem gl_u64Limit_le (q : Nat) (hq : q < 2 ^ 64) : u64Limit q ≤ 8 := by
   unfold u64Limit Codec.bitCount
